@@ -295,6 +295,144 @@ fn judge_synth(vs: &[Synth]) -> GroupJudged {
     j
 }
 
+/// Configuration groups: the same tree analysed through the real option parser with the same
+/// multiset of configured pattern names in different orders (a name may be listed twice).
+#[derive(Clone, Debug, PartialEq, Eq)]
+pub struct ConfigGroup {
+    pub world: World,
+    /// (optimizations, vulnerabilities, qa) name lists per variant
+    pub variants: Vec<(Vec<String>, Vec<String>, Vec<String>, Schedule)>,
+}
+
+impl ConfigGroup {
+    fn to_json(&self) -> Value {
+        json!({
+            "kind": "config",
+            "world": self.world.to_json(),
+            "variants": self.variants.iter().map(|(o, v, q, s)| json!({
+                "optimizations": o, "vulnerabilities": v, "qa": q, "schedule": s.to_json(),
+            })).collect::<Vec<_>>(),
+        })
+    }
+    fn from_json(v: &Value) -> Result<ConfigGroup, String> {
+        let strs = |x: &Value| -> Vec<String> {
+            x.as_array()
+                .map(|a| a.iter().map(|y| y.as_str().unwrap_or("").to_string()).collect())
+                .unwrap_or_default()
+        };
+        let mut variants = vec![];
+        for x in v["variants"].as_array().ok_or("variants")? {
+            variants.push((
+                strs(&x["optimizations"]),
+                strs(&x["vulnerabilities"]),
+                strs(&x["qa"]),
+                Schedule::from_json(&x["schedule"]),
+            ));
+        }
+        Ok(ConfigGroup {
+            world: World::from_json(&v["world"])?,
+            variants,
+        })
+    }
+}
+
+fn gen_config(ctx: &Ctx, rng: &mut Rng, screen: &mut Screen) -> ConfigGroup {
+    let (base, _, _) = c03::gen_spec(rng, screen);
+    let mut world = base.world.clone();
+    world.cwd = "/w".to_string();
+    let mut lists: Vec<Vec<String>> = vec![];
+    for cat in [Cat::Opt, Cat::Vul, Cat::Qa] {
+        let names = crate::c18::usable_names(ctx, cat);
+        let mut v = match rng.below(3) {
+            0 => names.clone(),
+            1 => rng.subset(&names, 1, 2),
+            _ => rng.subset(&names, 1, 4),
+        };
+        // a name may be configured twice (possibly in another letter case)
+        if !v.is_empty() && rng.chance(1, 2) {
+            let dup = rng.pick(&v).clone();
+            let dup = if rng.chance(1, 2) { dup.to_uppercase() } else { dup };
+            let pos = rng.below(v.len() + 1);
+            v.insert(pos, dup);
+        }
+        lists.push(v);
+    }
+    let mut variants = vec![];
+    for i in 0..K {
+        let mut l = lists.clone();
+        if i > 0 {
+            for x in l.iter_mut() {
+                rng.shuffle(x);
+            }
+        }
+        let (schedule, _, _) = gen::gen_schedule(rng, &world);
+        variants.push((l[0].clone(), l[1].clone(), l[2].clone(), schedule));
+    }
+    ConfigGroup { world, variants }
+}
+
+fn judge_config(g: &ConfigGroup) -> GroupJudged {
+    let mut j = GroupJudged {
+        violation: None,
+        runs: 0,
+        steps: 0,
+        sections: 0,
+        distinct_decisions: vec![],
+        findings_differ: false,
+        aborted: false,
+        trace: 0,
+        findings_hash: 0,
+        sample: None,
+    };
+    let mut first: Option<Vec<u8>> = None;
+    for (i, (o, v, q, schedule)) in g.variants.iter().enumerate() {
+        let mut world = g.world.clone();
+        world.put_file(
+            "/w/cfg.toml",
+            crate::c18::toml_text("/w/c", o, v, q).into_bytes(),
+            crate::world::Fault::None,
+        );
+        let spec = RunSpec {
+            world,
+            schedule: schedule.clone(),
+            mode: Mode::Proc {
+                argv: vec!["solstat".into(), "--toml".into(), "/w/cfg.toml".into()],
+            },
+            render: true,
+        };
+        let out = run(&spec);
+        j.runs += 1;
+        j.steps += out.journal.len() as u64 + 5;
+        j.trace = mix(j.trace ^ journal_hash(&out.journal));
+        j.distinct_decisions.push(mix(c03::decision_hash(&out) ^ hash_str(44, &format!("{:?}{:?}{:?}", o, v, q))));
+        if out.abort.is_some() {
+            j.aborted = true;
+            return j;
+        }
+        let report = out.report_bytes(&spec.world).unwrap_or_default();
+        j.trace = mix(j.trace ^ hash_str(41, &String::from_utf8_lossy(&report)));
+        if i == 0 {
+            let f = sorted(out.maps.flat());
+            let pats: std::collections::BTreeSet<&String> = f.iter().map(|e| &e.pat).collect();
+            j.sections = pats.len();
+            j.findings_hash = hash_str(42, &format!("{:?}", f));
+            j.sample = Some(json!({"kind": "config", "optimizations": o, "vulnerabilities": v, "qa": q, "variants": g.variants.len(), "run": spec.sample(&out)}));
+            first = Some(report);
+        } else if first.as_ref() != Some(&report) && j.violation.is_none() {
+            let r0 = first.as_ref().unwrap();
+            let at = first_diff(r0, &report);
+            j.violation = Some((
+                "report_depends_on_configured_order".into(),
+                format!(
+                    "same tree, same configured names in another order (variant #{}: optimizations {:?}, vulnerabilities {:?}, qa {:?}): the report differs at byte {} ({} vs {} bytes): ...{}... vs ...{}...",
+                    i, o, v, q, at, r0.len(), report.len(), excerpt(r0, at), excerpt(&report, at)
+                ),
+            ));
+        }
+    }
+    j
+}
+
 fn synth_group_json(vs: &[Synth]) -> Value {
     json!({"kind": "synthetic", "variants": vs.iter().map(|s| s.to_json()).collect::<Vec<_>>()})
 }
@@ -318,9 +456,15 @@ impl Property for C13 {
             Tier::Thorough => 150_000,
         }
     }
-    fn scenario(&self, _ctx: &Ctx, _index: u64, rng: &mut Rng, screen: &mut Screen) -> ScnResult {
+    fn scenario(&self, ctx: &Ctx, _index: u64, rng: &mut Rng, screen: &mut Screen) -> ScnResult {
         let mut r = ScnResult::default();
-        let (j, replay) = if rng.chance(1, 2) {
+        let kind = rng.below(5);
+        let (j, replay) = if kind == 0 {
+            let g = gen_config(ctx, rng, screen);
+            r.count("configuration_order_groups", 1);
+            let j = judge_config(&g);
+            (j, g.to_json())
+        } else if kind <= 2 {
             let g = gen_e2e(rng, screen);
             r.count("end_to_end_groups", 1);
             let j = judge_e2e(&g);
@@ -367,6 +511,7 @@ impl Property for C13 {
         let j = match scn["kind"].as_str() {
             Some("e2e") => judge_e2e(&E2eGroup::from_json(scn, &ctx.doc.names)?),
             Some("synthetic") => judge_synth(&synth_group_from(scn, &ctx.doc.names)?),
+            Some("config") => judge_config(&ConfigGroup::from_json(scn)?),
             _ => return Err("scenario.kind".into()),
         };
         Ok(j.violation.map(|(clause, detail)| Violation {
@@ -459,6 +604,52 @@ impl Property for C13 {
                     out.push(h.to_json());
                 }
             }
+            Some("config") => {
+                let g = match ConfigGroup::from_json(scn) {
+                    Ok(g) => g,
+                    Err(_) => return out,
+                };
+                if g.variants.len() > 2 {
+                    for i in 1..g.variants.len() {
+                        let mut h = g.clone();
+                        h.variants = vec![g.variants[0].clone(), g.variants[i].clone()];
+                        out.push(h.to_json());
+                    }
+                }
+                let prot = vec!["/w".to_string(), "/w/c".to_string()];
+                for w in crate::shrink::shrink_world(&g.world, &prot) {
+                    let mut h = g.clone();
+                    h.world = w;
+                    out.push(h.to_json());
+                }
+                // drop one configured name (one occurrence) from every variant
+                for which in 0..3 {
+                    let base: Vec<String> = match which {
+                        0 => g.variants[0].0.clone(),
+                        1 => g.variants[0].1.clone(),
+                        _ => g.variants[0].2.clone(),
+                    };
+                    for n in &base {
+                        let mut h = g.clone();
+                        for v in h.variants.iter_mut() {
+                            let l = match which {
+                                0 => &mut v.0,
+                                1 => &mut v.1,
+                                _ => &mut v.2,
+                            };
+                            if let Some(p) = l.iter().position(|x| x == n) {
+                                l.remove(p);
+                            }
+                        }
+                        out.push(h.to_json());
+                    }
+                }
+                for w in crate::shrink::shrink_contents(&g.world) {
+                    let mut h = g.clone();
+                    h.world = w;
+                    out.push(h.to_json());
+                }
+            }
             Some("synthetic") => {
                 let vs = match synth_group_from(scn, &ctx.doc.names) {
                     Ok(v) => v,
@@ -513,7 +704,7 @@ impl Property for C13 {
         vec!["sections_ge_2_and_orders_ge_2"]
     }
     fn rule(&self) -> String {
-        format!("Each scenario is a group of {} executions that must produce byte-identical reports: (a) end-to-end -- one generated tree and pattern set run under {} schedules that differ in listing permutation (7 modes), iteration permutation (4 modes) and configured pattern order; (b) render level -- one findings set materialised as {} maps built in different entry orders and iterated in different orders, each through the real generate_report. Groups in which a run aborts are skipped and counted. If the walkers return different findings under two schedules the reports differ too and that is reported here as well (two runs over the same directory content must give the same bytes, whatever the cause). Non-trivial = the findings span >=2 report sections and the group contains >=2 distinct decision traces; distinct = distinct hash of (findings, set of decision traces). evaluations counts single executions.", K, K, K)
+        format!("Each scenario is a group of {} executions that must produce byte-identical reports: (a) end-to-end -- one generated tree and pattern set run under {} schedules that differ in listing permutation (7 modes), iteration permutation (4 modes) and configured pattern order; (c) configuration order -- the same tree run through the real option parser with the same configured names (a name may be listed twice, in any letter case) in permuted order; (b) render level -- one findings set materialised as {} maps built in different entry orders and iterated in different orders, each through the real generate_report. Groups in which a run aborts are skipped and counted. If the walkers return different findings under two schedules the reports differ too and that is reported here as well (two runs over the same directory content must give the same bytes, whatever the cause). Non-trivial = the findings span >=2 report sections and the group contains >=2 distinct decision traces; distinct = distinct hash of (findings, set of decision traces). evaluations counts single executions.", K, K, K)
     }
     fn assumptions(&self) -> Vec<String> {
         vec![
